@@ -21,7 +21,7 @@ def S(t):
     return 'path-complete symbolic execution of the macro\'s MIR over a lazily initialised symbolic input AST, obligations discharged by z3; ' + t
 
 CLAIMED = {
- 'C01': ('model_checking', 'For a generated fn/mod corpus Kani/CBMC decides for every argument tuple and application state that the trait call traces exactly one call of the own function with the receiver as dependency, arguments in declared order and the direct-call result (X). For all fn/mod inputs within the AST bounds the delegating body is `f(self, p1..pn)[.await]` with the generated parameter names in order, own function name, receiver shape per dependency kind (S).',
+ 'C01': ('model_checking', 'For a generated fn/mod corpus Kani/CBMC decides for every argument tuple and application state that the trait call traces exactly one call of the own function with the receiver as dependency, arguments in declared order and the direct-call result (X). For all fn/mod inputs within the AST bounds the delegating body is `f(self, p1..pn)[.await]` with the generated parameter names in order, own function name, receiver shape per dependency kind (S). A corpus program whose expansion rustc rejects with a coded error is a violation (no method to call).',
          X_NOTE + ' ' + S_NOTE, X('call shape per input program decided by symbolic execution of the macro (S)'), 'X+S'),
  'C02': ('other', 'For all fn/mod/impl inputs within the bounds the expansion starts with / contains the input tokens unaltered and in order, generated items only after them (S, back end on AST inputs and front end on symbolic token lists through entrait\'s own item parsers incl. what Input::parse consumes before dispatching). X: reference twins (f == f_ref for all arguments), marker attribute applied exactly once, unsafe fn stays unsafe.',
          S_NOTE + ' ' + X_NOTE, S('item parsers run over symbolic token lists; Kani twins/markers'), 'S+X'),
@@ -29,7 +29,7 @@ CLAIMED = {
          S_NOTE + ' rustc decides the coercion witnesses.', S('signature identity; rustc-decided coercion witnesses'), 'S+X'),
  'C04': ('other', 'For all ways of declaring <=k dependency bounds (inline / where / impl A+B / split / several module fns), by-ref and by-value deps and all mock settings within the bounds: impl where-clause = exactly the declared bounds, `EntraitT: Sync [+ Send] + \'static`, self type T iff no mock derivation else Impl<T> (S, option values symbolic). X: availability probes for application types each missing one bound / auto trait (rustc-decided constants asserted under Kani).',
          S_NOTE, S('bound sets and self type; availability probes rustc-decided'), 'S+X'),
- 'C05': ('model_checking', 'Kani/CBMC over expansions of concrete-dependency functions (type shapes ident/path/generic/tuple/array/&\'static): C itself, Impl<C> and a hand-written impl behind Impl<App> traced for all argument values (X). Classification of dependency type shapes as concrete, impl target, nested entrait attribute (S).',
+ 'C05': ('model_checking', 'Kani/CBMC over expansions of concrete-dependency functions (type shapes ident/path/generic/tuple/array/&\'static): C itself, Impl<C> and a hand-written impl behind Impl<App> - also one written in a sibling module of the library (README Case 1, pub / pub(crate) trait) - traced for all argument values (X). Classification of dependency type shapes as concrete, impl target, nested entrait attribute (S).',
          X_NOTE + ' ' + S_NOTE, X('concrete-type classification by S'), 'X+S'),
  'C06': ('model_checking', 'Kani/CBMC over entraited traits for default/ref/Borrow selectors with two providers: every call forwarded once to the selected provider, arguments in order, result unchanged, for all argument values (X). Forwarding call shape, where-clause on T per selector, impl header for all trait shapes within the bounds (S).',
          X_NOTE + ' ' + S_NOTE, X('call shapes / provider bounds by S'), 'X+S'),
@@ -37,7 +37,7 @@ CLAIMED = {
          X_NOTE + ' ' + S_NOTE, X('impl-block / delegation-target shapes by S'), 'X+S'),
  'C08': ('other', 'Module bodies as symbolic token lists run through entrait\'s own ModItem parser: the items that become trait methods are exactly the visible fns with a body, in source order, compared with a reference classification written from the property (S front end); trait visibility inside the module and re-export (S back end). X: module with every qualifier combination and foreign items, each method traced to its own fn.',
          S_NOTE, S('item classification over symbolic token lists; Kani routing'), 'S+X'),
- 'C09': ('other', 'For all trait definitions within the bounds (attrs, vis, unsafe, generics, supertraits, where, <=2 items: methods +- default body +- attrs, associated types) the resulting trait keeps name / vis / unsafety / generics / supertraits / where / attributes / items; only mock derivations added; async rewrite as documented (S only).',
+ 'C09': ('other', 'For all trait definitions within the bounds (attrs, vis, unsafe, generics, supertraits, where, <=2 items: methods +- default body +- attrs, associated types) the resulting trait keeps name / vis / unsafety / generics / supertraits / where / attributes / items; only mock derivations added; async rewrite as documented; what is written before `trait` (attributes, visibility, unsafe) as symbolic token segments through Input::parse survives parsing and is on the emitted trait (S only).',
          S_NOTE, S('trait-preservation obligations'), 'S'),
  'C10': ('other', 'Full option lattice with symbolic option values x 4 macro entry points x fn/mod/trait: mock derivation present iff enabled (and named for fn/mod), wrapped in cfg_attr(test, ..) iff not exporting, explicit false wins (S). X: `Unimock: Trait` probes in non-test and cfg(test) builds with the unimock feature.',
          S_NOTE, S('option lattice with solver-valued options'), 'S+X'),
@@ -45,16 +45,16 @@ CLAIMED = {
          S_NOTE, S('unimock attribute parameters'), 'S'),
  'C12': ('other', 'Async rewrite `-> impl ::core::future::Future<Output = R> [+ ::core::marker::Send]`, Send iff not ?Send, async_trait kept and re-applied to trait / delegation-target trait / impls, `.await` iff async, for fn/mod/trait/impl inputs within the bounds (S). X: futures driven to completion with symbolic arguments, is_send / Output ascription / Rc-under-?Send witnesses rustc-decided.',
          S_NOTE + ' ' + X_NOTE, S('return-type rewrite; Kani completion + rustc witnesses'), 'S+X'),
- 'C13': ('other', 'Emitted visibility tokens: fn mode = requested node independent of the fn\'s; module mode pub(super) iff none requested, re-export carries the requested node; delegation-target trait copies the trait\'s; parsing of the visibility before the trait name (S). NOT decided: that rustc then rejects outside uses.',
+ 'C13': ('other', 'Emitted visibility tokens: fn mode = requested node independent of the fn\'s; module mode pub(super) iff none requested, re-export carries the requested node; delegation-target trait copies the trait\'s for every written target visibility x trait visibility x ref/Borrow/custom delegation; parsing of the visibility before the trait name (S). NOT decided: that rustc then rejects outside uses.',
          S_NOTE, S('visibility nodes'), 'S+X'),
  'C14': ('model_checking', 'Kani with std::alloc::alloc stubbed by a counter: direct call and trait call perform the same number of allocations (sync/async chains, lifetimes, impl Trait return, module, entraited trait, static inversion) for symbolic arguments; positive control (X). No macro-originated dyn/Box token on static-delegation paths (S).',
          X_NOTE + ' -Z stubbing of std::alloc::alloc. ' + S_NOTE, X('allocation counter via stubbing; token-level check by S'), 'X+S'),
  'C15': ('other', 'No feasible path from any modelled entry point (back ends on symbolic ASTs, attribute and item parsers on symbolic token lists) ends in a panic; documented misuses end in Err with their message and a span at an input token; unknown / unsupported options rejected (S). NOT decided: "never emits tokens that fail to parse" for arbitrary inputs.',
          S_NOTE, S('panic reachability and diagnostics'), 'S'),
- 'C16': ('other', 'Parameter pattern lists <=2 over the pattern alphabet with ALL identifier spellings as z3 strings (precondition: legal Rust): every generated parameter is a plain identifier, pairwise distinct, none equals the fn name, plain bindings keep their name (S). X: pattern programs compile and forward positionally.',
+ 'C16': ('other', 'Parameter pattern lists <=2 over the pattern alphabet (and <=3 over identifier / wildcard) with ALL identifier spellings as z3 strings (precondition: legal Rust): every generated parameter is a plain identifier, pairwise distinct, none equals the fn name, plain bindings keep their name (S). X: pattern programs compile and forward positionally.',
          S_NOTE, S('identifier spellings as solver strings'), 'S+X'),
- 'C17': ('other', 'Attribute lists <=5/7 tokens over the option alphabet run through entrait\'s own Parse impls for fn/mod/trait/impl targets and compared with a reference grammar of the option table: accepted iff documented, parsed struct = as written (bare == true, values, names), variant fallbacks (S front end + option lattice).',
-         S_NOTE, S('attribute parsers over symbolic token lists vs reference grammar'), 'S'),
+ 'C17': ('other', 'Attribute lists <=5/7 tokens over the option alphabet run through entrait\'s own Parse impls for fn/mod/trait/impl targets and compared with a reference grammar of the option table: accepted iff documented, parsed struct = as written (bare == true, values, names) (S front end). Metamorphic: for fn / mod / trait inputs with symbolic option presence and values under all four macro names, the expansion equals - token for token, or error for error - the expansion of the canonical spelling (macro `entrait`, variant fallbacks written out, `no_deps = false` / `export = false` dropped), both computed on the same path and compared by z3; counterexamples replayed by expanding both spellings with the real macro (S back ends).',
+         S_NOTE, S('attribute parsers over symbolic token lists vs reference grammar; two symbolic executions of the macro per path compared for the metamorphic equalities'), 'S'),
  'C18': ('other', 'Attribute placement for <=2 attrs on fn / module / module fns / trait / trait methods / impl-block fns / parameters: fn attrs only on the fn, generated trait/impl carry only async_trait/automock copies, parameter attrs stripped, trait-method attrs mirrored, cfg on module/impl fns must guard the generated methods (S). X: marker attribute applied exactly once.',
          S_NOTE, S('attribute placement'), 'S+X'),
  'C19': ('other', 'Every macro-originated identifier in every mode / delegation kind is a keyword, a reserved name, an attribute key, a method name after `.`, or a segment of a path rooted at ::entrait / ::core / ::mockall (S). X: corpus in a hostile scope (no imports, local items named Impl/Future/AsRef/Borrow/Box/core/entrait, traits named Sync/Send) compiles and behaves.',
